@@ -224,6 +224,7 @@ def cstep (s : Unit) (kind : String) (args impl : List String) : Option (Unit ×
   if kind ≠ "op" then none else
   let br := match args with
     | "race" :: rest => if rest.contains "group-replaced=1" then "race.retry-taken" else "race.announcer-first"
+    | "lookups" :: rest => if rest.contains "overlapping-cleanup=1" then "lookups.overlapping-cleanup" else "lookups.no-overlap"
     | _ => "stress"
   some (s, { obs := impl, branch := br })
 
